@@ -55,7 +55,17 @@ pub fn runs_for(_prop: &str, tier: Tier) -> u64 {
 
 // ---------------------------------------------------------------- generation
 
-const PAIRS: [(&str, &str); 12] = [
+const PAIRS: [(&str, &str); 22] = [
+    ("Vec<Nat>", "Vec<Int>"),
+    ("Nat", "Int"),
+    ("BTreeMap<String,Nat>", "BTreeMap<String,Int>"),
+    ("BTreeMap<Nat,Nat>", "BTreeMap<Int,Nat>"),
+    ("Vec<(Nat,Int)>", "Vec<(Int,Int)>"),
+    ("Vec<SmallNat>", "Vec<i128>"),
+    ("Vec<SmallNat>", "Vec<u128>"),
+    ("Vec<SmallInt>", "Vec<i128>"),
+    ("Vec<Option<Nat>>", "Vec<Option<Int>>"),
+    ("BTreeMap<String,SmallNat>", "BTreeMap<String,i128>"),
     ("BtA", "BtB"),
     ("BtB", "BtA"),
     ("BtC", "BtD"),
